@@ -76,6 +76,9 @@ def small_case(draw):
          'name': draw(st.sampled_from([None, 'given-name'])),
          'dedup': draw(st.booleans()) if dup else draw(st.sampled_from([False, False, True])),
          'dedup_cs': draw(st.booleans()), 'dedup_fmt': draw(st.sampled_from([None, None, '_%s', ' (%s)']))}
+    if not plain and ncol >= 2 and draw(st.integers(0, 4)) == 0:
+        # title lines above the header line, whose position is given explicitly (headers=k+1)
+        c['titles'] = draw(st.integers(0, 2))
     if not plain:
         # the file's encoding is passed to load explicitly (BOM-carrying and single-byte encodings included)
         enc = draw(st.sampled_from(['utf-8', 'utf-8', 'utf-8', 'utf-8-sig', 'utf-16', 'latin-1']))
@@ -159,12 +162,15 @@ def check(case, ctx):
     with open(path, 'w', newline='', encoding=enc) as f:
         w = csv.writer(f, delimiter=c['dialect']['delimiter'], lineterminator=c['dialect']['lineterminator'],
                        quotechar='"', doublequote=True, quoting=csv.QUOTE_MINIMAL)
+        for t in range(c.get('titles') or 0):
+            w.writerow(['Report %d' % t] if t == 0 else ['generated', 'by the harness'][:max(1, len(c['headers']) - 1)])
         w.writerow(c['headers'])
         w.writerows(c['rows'])
     # independent pass over the same file
     with open(path, newline='', encoding=enc) as f:
         ref = list(csv.reader(f, delimiter=c['dialect']['delimiter'], quotechar='"', doublequote=True))
-    ref_headers, ref_rows = ref[0], ref[1:]
+    nt = c.get('titles') or 0
+    ref_headers, ref_rows = ref[nt], ref[nt + 1:]
     assert ref_headers == c['headers'] and ref_rows == c['rows'], 'harness: csv writer/reader disagree'
     kw = {}
     if not c['plain']:
@@ -172,6 +178,9 @@ def check(case, ctx):
                   lineterminator=c['dialect']['lineterminator'], encoding=enc)
         if enc != 'utf-8':
             classes.append('encoding:' + enc)
+    if c.get('titles') is not None:
+        kw['headers'] = nt + 1
+        classes.append('explicit-header-line:%d' % (nt + 1))
     if c['strip'] is not None:
         kw['strip'] = c['strip']
     if c['limit'] is not None:
